@@ -110,7 +110,16 @@ func c05Exec(cs progCase, classify func(r *prog.Runner) func(op prog.Op, d *disc
 				labels["re-enable-after-suspension"] = true
 			}
 		}
-		sd := r.Step(op)
+		var sd []disc
+		done := false
+		if op.Via == "api" {
+			sd, done = r.APIStep(op)
+		}
+		if !done {
+			o := op
+			o.Via = ""
+			sd = r.Step(o)
+		}
 		if len(sd) == 0 {
 			sd = r.CheckVersions("bk0")
 		}
@@ -270,6 +279,32 @@ func c05Run(t *testing.T, c *evid.Collector) {
 	}
 	c.Set("exhaustive_scope", fmt.Sprintf("all programs of length 1..%d over a %d-op alphabet on one key after an initial Enable (s3mem): complete (split over shards)", L, len(al)))
 	c.Exhaustive(false)
+
+	// fixed histories (ignore the seed): versions are also created by copies, over HTTP and through
+	// the Go API (nil metadata map); a copy leaves every version of its source as it was
+	if evid.Shard() == 0 {
+		en, su := prog.Op{K: "setver", B: "bk0", Status: "Enabled"}, prog.Op{K: "setver", B: "bk0", Status: "Suspended"}
+		sent := [][2]string{{"X-Amz-Meta-V", "copied"}, {"X-Amz-Meta-Only-On-Copy", "c"}}
+		put := func(k, body, tag string) prog.Op {
+			return prog.Op{K: "put", B: "bk0", Key: k, Body: []byte(body), Meta: [][2]string{{"X-Amz-Meta-V", tag}}}
+		}
+		cp := func(dst, src, via string, meta [][2]string) prog.Op {
+			return prog.Op{K: "copy", B: "bk0", Key: dst, SB: "bk0", SKey: src, Via: via, Meta: meta}
+		}
+		for _, h := range [][]prog.Op{
+			{en, put("k0", "one", "1"), put("k1", "other", "o"), cp("k1", "k0", "", sent), cp("k1", "k0", "api", nil), {K: "getver", B: "bk0", Key: "k0", Ref: 0}, put("k0", "two", "2"), cp("k1", "k0", "api", nil), {K: "getver", B: "bk0", Key: "k0", Ref: 0}, {K: "getver", B: "bk0", Key: "k0", Ref: 1}},
+			{put("k0", "zero", "0"), en, put("k0", "one", "1"), cp("k0", "k0", "", sent), cp("k1", "k0", "api", nil), su, cp("k1", "k1", "api", nil), cp("k0", "k1", "api", nil), {K: "delver", B: "bk0", Key: "k0", Ref: -1}, {K: "getver", B: "bk0", Key: "k0", Ref: 0}},
+		} {
+			cs := progCase{Backend: backends.Mem, Driver: "mixed", Ops: h}
+			ds, labels := c05Exec(cs, func(r *prog.Runner) func(op prog.Op, d *disc) { return c05Classify(r) })
+			var ls []string
+			for l := range labels {
+				ls = append(ls, l)
+			}
+			c.Case(evid.FP(mustJSON(cs)), true, func() interface{} { return cs }, append(ls, "src:fixed-copies")...)
+			report(c, "history", ds, cs)
+		}
+	}
 
 	rapidRun(t, "random", evid.Scale(2000, 40000), func(rt *rapid.T) {
 		n := rapid.IntRange(10, 60).Draw(rt, "n")
